@@ -67,7 +67,8 @@ PRELUDES = {'plain': [], 'sigstate': ['sighandler 10', 'sighandler 13', 'sighand
             'sigstate2': ['sighandler 1', 'sighandler 2', 'sighandler 14', 'sighandler 15', 'sigmask 13', 'umask 077'],
             # identities without passwd / group entries, real != effective, stdin on a pty: the lookup-miss paths of the identity data sources
             'ids_unknown': ['stdin pty', 'setresgid 54321 54321 54321', 'setresuid 54321 54321 54321'],
-            'ids_mixed': ['stdin pty', 'setresgid 1 54321 0', 'setresuid 1 54321 0']}
+            'ids_mixed': ['stdin pty', 'setresgid 1 54321 0', 'setresuid 1 54321 0'],
+            'fds_above_1023': ['openfds 1100']}
 
 
 def digest_eq(a, b):
